@@ -1033,6 +1033,7 @@ def mon_c04(case_line, acts):
     for i, a in enumerate(acts):
         expected_msgs = []
         stop = False
+        first_q2 = None     # the last packet read by this action was a first QoS 2 arrival with this identifier
         if a.code == 0:
             sent = done
         for ev in per[i]:
@@ -1057,6 +1058,7 @@ def mon_c04(case_line, acts):
             elif ev[0] == 'rx':
                 first, body = ev[1], ev[2]
                 typ = first >> 4
+                first_q2 = None
                 if typ == 3:
                     m = _parse_inbound_publish(first, body)
                     if m is None:
@@ -1076,6 +1078,7 @@ def mon_c04(case_line, acts):
                         unacked[m['pid']] = 2
                         owed.append((5, m['pid'], 0))
                         expected_msgs.append(m)
+                        first_q2 = m['pid']
                     if len(unacked) > 8:
                         return out
                 elif typ == 6:
@@ -1092,6 +1095,14 @@ def mon_c04(case_line, acts):
                 elif typ == 14:
                     return out
         res = a.result or ''
+        if res.startswith('err PacketTooLarge') and first_q2 is not None and expected_msgs and owed and owed[-1] == (5, first_q2, 0):
+            # the PUBREC does not fit the broker's Maximum Packet Size: the connection is closed (C14) and the message was
+            # neither acknowledged nor delivered - so the exchange has not begun: the broker will send it again and it
+            # must be delivered then (defect F18, repaired by fix 6ec1ca9: the identifier used to stay recorded)
+            pending.discard(first_q2)
+            unacked.pop(first_q2, None)
+            owed.pop()
+            continue
         if res.startswith('err InflightExhausted') or res.startswith('err PacketTooLarge') or res in ('PANIC', 'FUEL') \
                 or res.startswith('err InvalidPacket'):
             return out          # malformed broker data or a local refusal: outside the premises of C04
